@@ -78,6 +78,8 @@ fn sim_kinds() -> Vec<RKind> {
 pub fn build_file(src: &FileSrc) -> Option<(Vec<u8>, crate::ast::Ty)> {
 	match src {
 		FileSrc::Crate(spec) => {
+			let expanded = spec.expanded();
+			let spec = &*expanded;
 			let sink = SimSink::all();
 			let run = container::run_writer(spec, &sink, |_, _| true);
 			if run.steps.iter().any(|s| s.res.is_err()) {
@@ -86,6 +88,8 @@ pub fn build_file(src: &FileSrc) -> Option<(Vec<u8>, crate::ast::Ty)> {
 			Some((sink.accepted(), spec.schema.clone()))
 		}
 		FileSrc::Ref(b) => {
+			let expanded = b.expanded();
+			let b = &*expanded;
 			let env = Env::build(&b.schema);
 			let json = crate::ast::to_json(&b.schema);
 			ref_container::write(&env, &b.schema, &json, b.codec, b.sync, &b.user_meta, &b.values, &b.opts)
@@ -99,13 +103,30 @@ fn enumerate_cases(file: &[u8], parsed: &Parsed, seed: u64, cap: usize, clean_ca
 	let mut rng = Rng::from_seed(seed);
 	let mut cases = vec![];
 	let kinds = reader_kinds();
+	// LONG files: the per-block fault classes are enumerated for a sample of the blocks (both ends, around the 256th,
+	// a few drawn), and fewer cases overall (each one reads hundreds of blocks)
+	let nb = parsed.blocks.len();
+	let long = nb > 24;
+	let cap = if long { cap.min(120) } else { cap };
+	let sel: Vec<usize> = if !long {
+		(0..nb).collect()
+	} else {
+		let mut v = vec![0, 1, nb - 2, nb - 1];
+		v.extend([254usize, 255, 256, 257].iter().copied().filter(|&i| i < nb));
+		for _ in 0..4 {
+			v.push(rng.usize(nb));
+		}
+		v.sort();
+		v.dedup();
+		v
+	};
 	// (T) every truncation offset
 	let offsets: Vec<usize> = if file.len() <= cap {
 		(0..file.len()).collect()
 	} else {
 		// all offsets inside block headers / the last 24 bytes of each block / file header tail, rest sampled
 		let mut v: Vec<usize> = vec![];
-		for b in &parsed.blocks {
+		for b in sel.iter().map(|&i| &parsed.blocks[i]) {
 			v.extend(b.off..b.payload_off + 2);
 			v.extend(b.sync_off.saturating_sub(8)..(b.sync_off + 16).min(file.len()));
 		}
@@ -129,7 +150,7 @@ fn enumerate_cases(file: &[u8], parsed: &Parsed, seed: u64, cap: usize, clean_ca
 			cases.push(Case { fault: Fault::Truncate { at }, reader: kinds[(i + 2) % kinds.len()].clone() });
 		}
 	}
-	for (bi, b) in parsed.blocks.iter().enumerate() {
+	for (bi, b) in sel.iter().map(|&i| (i, &parsed.blocks[i])) {
 		// (S) every byte of every trailing sync marker
 		for idx in 0..16 {
 			let xor = *rng.pick(&[0x01u8, 0x80, 0xff, 0x10]);
@@ -180,7 +201,7 @@ fn enumerate_cases(file: &[u8], parsed: &Parsed, seed: u64, cap: usize, clean_ca
 	}
 	// (B') the last bytes of every payload (codec trailers: snappy CRC, deflate end-of-stream bits, zstd / xz / bzip2
 	// checksums) and its first bytes (frame headers), under EVERY reader kind
-	for b in &parsed.blocks {
+	for b in sel.iter().map(|&i| &parsed.blocks[i]).take(if long { 3 } else { usize::MAX }) {
 		let tail = b.sync_off.saturating_sub(12).max(b.payload_off)..b.sync_off;
 		let head = b.payload_off..(b.payload_off + 8).min(b.sync_off);
 		for off in tail.chain(head) {
@@ -201,6 +222,22 @@ fn enumerate_cases(file: &[u8], parsed: &Parsed, seed: u64, cap: usize, clean_ca
 			cases.push(Case { fault: Fault::Io { at_call: i, kind }, reader: k.clone() });
 			if i % 4 == 1 {
 				cases.push(Case { fault: Fault::IoBurst { at_call: i, n: 2 + i % 3 }, reader: k.clone() });
+			}
+		}
+	}
+	if long || file.len() > 256 * 1024 {
+		// every case reads hundreds of blocks (or hundreds of KiB): a sample of the cases, and no byte-at-a-time
+		// sources on large files (the I/O-fault cases keep the reader kind their call indices were measured with)
+		rng.shuffle(&mut cases);
+		cases.truncate(160);
+		if file.len() > 16 * 1024 {
+			for c in cases.iter_mut() {
+				if matches!(c.fault, Fault::Io { .. } | Fault::IoBurst { .. }) {
+					continue;
+				}
+				if let RKind::Sim(ReaderKind::Direct(RefillPlan::Fixed(k))) = &c.reader {
+					c.reader = RKind::Sim(ReaderKind::Direct(RefillPlan::Fixed(if *k == 1 { 61 } else { 997 })));
+				}
 			}
 		}
 	}
@@ -355,6 +392,17 @@ impl Prop for C17 {
 			push_ops: true,
 			scale: 1,
 		};
+		if rng.chance(1, 60) {
+			// LONG files: hundreds of blocks, more than 65 535 objects in one block, long runs of empty blocks
+			let file = if rng.bool() {
+				let mut spec = container::gen_long_spec(rng, &SpecProfile { heavy_codecs: false, ..profile }, 140_000);
+				spec.end = End::IntoInner;
+				FileSrc::Crate(spec)
+			} else {
+				FileSrc::Ref(crate::props::c06::gen_long_bspec(rng, true, 140_000))
+			};
+			return Scn { file, cases: Cases::Enumerate { seed: rng.next_u64(), cap: if tier == Tier::Quick { 500 } else { 3000 } } };
+		}
 		let file = if run % 3 != 2 {
 			let mut spec = container::gen_filespec(rng, &profile);
 			if rng.chance(1, 25) {
@@ -392,6 +440,7 @@ impl Prop for C17 {
 					datum_layout: Layout { seed: rng.next_u64(), split_blocks: rng.bool(), negative_counts: rng.bool(), pad_varints: 0 },
 					..WriteOpts::default()
 				},
+				many: None,
 			})
 		};
 		Scn {
@@ -423,10 +472,28 @@ impl Prop for C17 {
 			return out;
 		};
 		let wide = container::min_width(&env, &schema, 0) >= 1;
+		if parsed.blocks.len() > 24 {
+			out.count("long_file_of_many_blocks", 1);
+		}
+		if parsed.blocks.iter().any(|b| b.count > 65_535) {
+			out.count("long_file_block_above_65535_objects", 1);
+		}
+		if parsed.blocks.windows(2).filter(|w| w[0].count == 0 && w[1].count == 0).count() >= 100 {
+			out.count("long_file_run_of_blocks_without_objects", 1);
+		}
 		let budget = container::call_budget_for(orig.len(), parsed.blocks.len());
 		// clean reads: baseline sanity + number of source calls per stream kind
 		let mut clean_calls = vec![];
-		for k in sim_kinds() {
+		let stream_kinds = if file.len() > 16 * 1024 && (parsed.blocks.len() > 24 || file.len() > 256 * 1024) {
+			vec![
+				RKind::Sim(ReaderKind::Direct(RefillPlan::Whole)),
+				RKind::Sim(ReaderKind::Direct(RefillPlan::Fixed(61))),
+				RKind::Sim(ReaderKind::BufReader { cap: 512, plan: RefillPlan::Fixed(997) }),
+			]
+		} else {
+			sim_kinds()
+		};
+		for k in stream_kinds {
 			let r = container::read_file(&file, &env, &schema, &k, &[], budget);
 			out.evals += 1;
 			if !r.ended_cleanly() || r.values().len() != orig.len() {
